@@ -449,6 +449,16 @@ public:
         bool await_resume() {
             return this->_owner.check_next();
         }
+        ///Wait synchronously for the next item (hides co_awaiter::wait(), which would bypass check_next())
+        bool wait() {
+            this->sync();
+            return await_resume();
+        }
+        ///Same as wait(), can be called in a coroutine
+        bool force_wait() {
+            this->force_sync();
+            return await_resume();
+        }
 
         bool operator !() {
             return !operator bool();
